@@ -5,7 +5,7 @@ import FxVerif.Model.Util
 
 ops (all numbers decimal; lists comma separated, `-` = empty):
   reset <threshold> <multiple> <slashFracMantissa> [<chain> <signedWindow> <nOracles>]
-  claim <wrapperBridger> <innerBridger> <nonce> <hashId> <kind: p | c | o | s:<extIds>> <extHeight>
+  claim <wrapperBridger> <innerBridger> <nonce> <hashId> <kind: p | c | r | o | s:<extIds>> <extHeight>
   bond <oracle> <bridger> <ext> <amount> <dep>
   adddel <oracle> <amount> <dep>
   editbr <oracle> <bridger>
@@ -28,7 +28,7 @@ def bool? (w : String) : Option Bool :=
   if w == "1" then some true else if w == "0" then some false else none
 
 def kind? (w : String) : Option Kind :=
-  if w == "p" || w == "c" then some .pending   -- send-to-fx / bridge-call claim: both are parked for later execution
+  if w == "p" || w == "c" || w == "r" then some .pending   -- send-to-fx / bridge-call / bridge-call-result claim: all parked for later execution
   else if w == "o" then some .other
   else if w.startsWith "s:" then (natList? (w.drop 2).toString).map Kind.oracleSet
   else none
